@@ -60,6 +60,95 @@ def check_builders(ctx, rep):
     return n
 
 
+FIELD_SOURCES = {'Q': 'states', 'F': 'final_states'}     # constructor parameter -> field of the parsed Automaton record
+
+
+def _is_record_field(e, attr):
+    return isinstance(e, ast.Attribute) and e.attr == attr and u(e.value) in ('A', 'self.A')
+
+
+def _total_image_expr(e, attr):
+    """e is an element-wise image of A.<attr> with nothing filtered away"""
+    if _is_record_field(e, attr):
+        return True
+    if isinstance(e, ast.Call) and isinstance(e.func, ast.Name) and e.func.id in ('set', 'frozenset', 'list', 'sorted') and len(e.args) == 1:
+        return _total_image_expr(e.args[0], attr)
+    if isinstance(e, (ast.SetComp, ast.GeneratorExp, ast.ListComp)) and len(e.generators) == 1:
+        g = e.generators[0]
+        if g.ifs or not _is_record_field(g.iter, attr) or not isinstance(g.target, ast.Name):
+            return False
+        elt = e.elt
+        if isinstance(elt, ast.Call) and len(elt.args) == 1 and not elt.keywords:
+            elt = elt.args[0]
+        return isinstance(elt, ast.Name) and elt.id == g.target.id
+    return False
+
+
+def check_builder_fields(ctx, rep):
+    """the state sets handed to the constructor are exactly the declared ones: Q is the image of A.states and F the image
+    of A.final_states, element by element, with no condition that could filter a declared state away"""
+    n = 0
+    for cname, kind in KIND.items():
+        cls = [c for c in ctx.prog.classes.values() if c.name == cname]
+        if not cls or cls[0].methods.get('build') is None:
+            continue
+        build = cls[0].methods['build']
+        ctor = [c for c in ctx.prog.calls_in(build) if ctx.callee_name(build, c) == kind]
+        if len(ctor) != 1:
+            continue
+        kcls = [c for c in ctx.prog.classes.values() if c.name == kind and not c.module.name.startswith('template:')]
+        init = kcls[0].methods.get('__init__') if kcls else None
+        if init is None:
+            continue
+        params = [p.arg for p in init.pos_params if p.arg != 'self']
+        for pname, attr in FIELD_SOURCES.items():
+            if pname not in params:
+                continue
+            i = params.index(pname)
+            arg = ctor[0].args[i] if i < len(ctor[0].args) else next((k.value for k in ctor[0].keywords if k.arg == pname), None)
+            if arg is None:
+                continue
+            n += 1
+            if not isinstance(arg, ast.Name):
+                if _total_image_expr(arg, attr):
+                    rep.holds(RULE + '.field', build, arg, '{} is the element-wise image of A.{}'.format(pname, attr))
+                else:
+                    rep.violates(RULE + '.field', build, arg, 'the {} handed to {}() is not the plain image of the declared A.{}'.format(pname, kind, attr))
+                continue
+            name = arg.id
+            defs = [st for st in walk_no_nested(build.node) if isinstance(st, (ast.Assign, ast.AnnAssign)) and any(isinstance(t, ast.Name) and t.id == name for t in (st.targets if isinstance(st, ast.Assign) else [st.target]))]
+            aug = [st for st in walk_no_nested(build.node) if isinstance(st, ast.AugAssign) and isinstance(st.target, ast.Name) and st.target.id == name]
+            muts = [c for c in walk_no_nested(build.node) if isinstance(c, ast.Call) and isinstance(c.func, ast.Attribute) and isinstance(c.func.value, ast.Name) and c.func.value.id == name
+                    and c.func.attr in ('add', 'update', 'discard', 'remove', 'clear', 'pop', 'difference_update', 'intersection_update')]
+            if len(defs) == 1 and not aug and not muts and _total_image_expr(defs[0].value, attr):
+                rep.holds(RULE + '.field', build, defs[0], '{} is the element-wise image of A.{}: every declared state is kept'.format(pname, attr))
+                continue
+            # loop form: X = set(); for s in A.<attr>: X.add(State(s))  with no condition around the add
+            fx = ctx.facts(build)
+            ok = len(defs) == 1 and not aug and bool(muts)
+            why = ''
+            for c in muts:
+                if c.func.attr != 'add':
+                    ok, why = False, '{} is applied to it'.format(c.func.attr)
+                    break
+                st = fx.stmt_of_expr(c)
+                loops = [l for l in walk_no_nested(build.node) if isinstance(l, ast.For) and any(x is c for x in ast.walk(l))]
+                if not loops or not _is_record_field(loops[-1].iter, attr):
+                    ok, why = False, 'elements are added while walking {} instead of A.{}'.format(u(loops[-1].iter) if loops else 'no loop', attr)
+                    break
+                conds = [t for t in ast.walk(loops[-1]) if isinstance(t, (ast.If, ast.IfExp)) and any(x is c for x in ast.walk(t))]
+                if conds:
+                    ok, why = False, 'the add is guarded by `{}`'.format(u(conds[0].test))
+                    break
+            if ok:
+                rep.holds(RULE + '.field', build, defs[0], '{} collects every element of A.{} unconditionally'.format(pname, attr))
+            else:
+                site = muts[0] if muts else (defs[0] if defs else arg)
+                rep.violates(RULE + '.field', build, site, 'the set {} handed to {}() is not the plain image of the declared A.{} ({}): a declared state can be filtered away, e.g. an accepting initial state without incoming transitions loses its accepting status'.format(
+                    pname, kind, attr, why or 'its definition is not an element-wise copy'))
+    return n
+
+
 def raise_missing(what):
     from ..model import AnalysisError
     raise AnalysisError('anchor {} vanished'.format(what))
@@ -190,6 +279,32 @@ def check_parse_line(ctx, rep):
     calls = [c for c in _self_calls(f, 'parse_state_set') if c.args and u(c.args[0]) == "'states'"]
     if calls and any(k.arg == 'check_non_empty' and isinstance(k.value, ast.Constant) and k.value.value is True for k in calls[0].keywords):
         rep.holds(RULE + '.dup', f, calls[0], 'an empty states declaration is rejected', nontrivial=False)
+    # an empty `final` declaration is ACCEPTED: no class invariant asks for an accepting state, the printers write the
+    # line `final` with nothing after it for F = {}, so the reader must take it (effective value of check_non_empty)
+    g = ctx.prog.func('automaton_algorithms.AutomatonParser.parse_state_set')
+    default = g.defaults.get('check_non_empty')
+    guard_uses_flag = any(isinstance(t, ast.If) and 'check_non_empty' in names_in(t.test) and any(isinstance(x, ast.Raise) for x in ast.walk(t)) for t in walk_no_nested(g.node))
+    f_may_be_empty = True
+    for spec in ('dfa.DFA', 'nfa.NFA', 'pda.PDA'):
+        cv = ctx.prog.cls(spec).methods.get('_check_validity')
+        if cv is not None:
+            for a in walk_no_nested(cv.node):
+                if isinstance(a, ast.Assert) and (u(a.test) in ('F', 'len(F) > 0', 'len(F) >= 1', 'F != set()') or u(a.test).startswith('len(F)')):
+                    f_may_be_empty = False
+    for kw in ("'final'",):
+        for c in [c for c in _self_calls(f, 'parse_state_set') if c.args and u(c.args[0]) == kw]:
+            n += 1
+            eff = default
+            for k in c.keywords:
+                if k.arg == 'check_non_empty':
+                    eff = k.value
+            if len(c.args) >= 3:
+                eff = c.args[2]
+            rejects_empty = guard_uses_flag and not (isinstance(eff, ast.Constant) and eff.value in (False, None, 0))
+            if rejects_empty and f_may_be_empty:
+                rep.violates(RULE + '.empty', f, c, 'the declaration {} is read with check_non_empty = {} (effective value: the call passes none, the default applies), so `final` with no states is rejected -- but an automaton without accepting states is legal and the printers write exactly that line: the library cannot read back its own output and the checkers reject its own answers'.format(kw, u(eff) if eff is not None else 'True'))
+            else:
+                rep.holds(RULE + '.empty', f, c, 'an empty {} declaration is accepted (effective check_non_empty is {})'.format(kw, u(eff) if eff is not None else 'absent'))
     return n
 
 
@@ -263,6 +378,11 @@ def check_declared_vs_empty(ctx, rep):
                 if isinstance(st, ast.Assign) and len(st.targets) == 1 and isinstance(st.targets[0], ast.Name) and isinstance(st.value, ast.Call) \
                         and isinstance(st.value.func, ast.Attribute) and st.value.func.attr == 'get' and u(st.value.func.value).endswith('.items') and len(st.value.args) == 1:
                     optional.add(st.targets[0].id)     # None when the keyword is missing, [] when it is declared empty
+                # any value computed from items.get(key[, default]): the look-up no longer tells "missing" from "declared empty"
+                if isinstance(st, ast.Assign) and len(st.targets) == 1 and isinstance(st.targets[0], ast.Name):
+                    for c in ast.walk(st.value):
+                        if isinstance(c, ast.Call) and isinstance(c.func, ast.Attribute) and c.func.attr == 'get' and u(c.func.value).endswith('.items') and c.args:
+                            optional.add(st.targets[0].id)
             for t in walk_no_nested(f.node):
                 if not isinstance(t, (ast.If, ast.IfExp, ast.While)):
                     continue
